@@ -80,13 +80,13 @@ theorem tile_cons_some {cs : List Char} {r : LexRule} {n : Nat} (h : select cs =
 /-- the spec's result for the rest `cs` of a line at byte offset `pos`, with `acc` the
 collected string literal and `toks0` the tokens read so far -/
 def specFrom (lno pos : Nat) (acc : Option String) (toks0 : List Tok) (cs : List Char) :
-    Except Nat (List Tok × String) :=
+    Except Nat (List Tok × Option String) :=
   match tile cs with
   | (ls, true) => .ok (toks0 ++ (readToks lno pos acc ls).1, (readToks lno pos acc ls).2)
   | (ls, false) => .error (pos + 1 + byteLen (ls.flatMap (·.text)))
 
 theorem specFrom_nil (lno pos : Nat) (acc : Option String) (toks0 : List Tok) :
-    specFrom lno pos acc toks0 [] = .ok (toks0, acc.getD "") := by
+    specFrom lno pos acc toks0 [] = .ok (toks0, acc) := by
   simp [specFrom, tile_nil, readToks]
 
 theorem specFrom_none {lno pos : Nat} {acc : Option String} {toks0 : List Tok} {c : Char}
@@ -133,7 +133,7 @@ theorem specFrom_tok {lno pos : Nat} {acc : Option String} {toks0 : List Tok} {c
 def accOf (strs : List String) : Option String :=
   if strs.isEmpty then none else some (String.join strs)
 
-def projSt (s : St) : List Tok × String := (s.toks, String.join s.strs)
+def projSt (s : St) : List Tok × Option String := (s.toks, accOf s.strs)
 
 theorem accOf_getD (strs : List String) : (accOf strs).getD "" = String.join strs := by
   cases strs <;> simp [accOf, String.join_nil]
@@ -160,7 +160,7 @@ theorem loop_eq_spec (lno : Nat) : ∀ (fuel pos : Nat) (cs : List Char) (s : St
   | succ fuel ih =>
     intro pos cs s hlen
     cases cs with
-    | nil => simp [loop, specFrom_nil, Except.map, projSt, accOf_getD]
+    | nil => simp [loop, specFrom_nil, Except.map, projSt]
     | cons c rest =>
       rw [loop]
       simp only [List.isEmpty_cons, Bool.false_eq_true, if_false]
@@ -197,29 +197,33 @@ theorem loop_eq_spec (lno : Nat) : ∀ (fuel pos : Nat) (cs : List Char) (s : St
             | nil => simp [flushStrs, hstrs, accOf]
             | cons x xs => simp [flushStrs, hstrs, accOf]
 
-theorem pendingOf_eq (pending : String) :
-    accOf (if pending.isEmpty then [] else [pending]) = pendingOf pending := by
-  by_cases h : pending.isEmpty = true
-  · simp [h, accOf, pendingOf]
-  · simp [h, accOf, pendingOf, String.join_cons, String.join_nil]
+/-- the initial pieces for a carried literal -/
+def strsOf (pending : Option String) : List String :=
+  match pending with | some p => [p] | none => []
 
-theorem specFrom_zero (lno : Nat) (pending : String) (ln : String) :
-    specFrom lno 0 (pendingOf pending) [] ln.toList = lexLine lno pending ln := by
+theorem accOf_strsOf (pending : Option String) : accOf (strsOf pending) = pending := by
+  cases pending <;> simp [strsOf, accOf, String.join_cons, String.join_nil]
+
+theorem specFrom_zero (lno : Nat) (pending : Option String) (ln : String) :
+    specFrom lno 0 pending [] ln.toList = lexLine lno pending ln := by
   simp only [specFrom, lexLine]
   rcases tile ln.toList with ⟨ls, ok⟩
   cases ok <;> simp
 
 /-- the model's `Lex.line` is the spec's `lexLine` -/
-theorem line_eq_spec (lno : Nat) (pending : String) (ln : String) :
+theorem line_eq_spec (lno : Nat) (pending : Option String) (ln : String) :
     (Lex.line lno pending ln).map (fun o => (o.toks, o.pending)) = lexLine lno pending ln := by
   have h := loop_eq_spec lno (ln.toList.length + 1) 0 ln.toList
-    { strs := if pending.isEmpty then [] else [pending] } (by omega)
-  rw [pendingOf_eq] at h
+    { strs := strsOf pending } (by omega)
+  rw [accOf_strsOf] at h
   simp only [] at h
   rw [specFrom_zero] at h
   rw [← h]
   simp only [Lex.line]
-  cases loop lno (ln.toList.length + 1) 0 ln.toList { strs := if pending.isEmpty then [] else [pending] } with
+  change Except.map _ (match loop lno (ln.toList.length + 1) 0 ln.toList { strs := strsOf pending } with
+    | .error c => .error c
+    | .ok s => .ok _) = _
+  cases loop lno (ln.toList.length + 1) 0 ln.toList { strs := strsOf pending } with
   | error e => rfl
   | ok s => rfl
 
